@@ -161,7 +161,12 @@ pub struct LogEntry {
     /// How many of `docs` reached the inner store.
     pub written: usize,
     pub fault: Fault,
+    /// Process-wide sequence number of the call (orders the calls of different stores of one
+    /// single-threaded execution).
+    pub seq: u64,
 }
+
+static LOG_SEQ: std::sync::atomic::AtomicU64 = std::sync::atomic::AtomicU64::new(1);
 
 pub struct FaultStore<I: Storage> {
     pub inner: Arc<I>,
@@ -211,7 +216,8 @@ impl<I: Storage> FaultStore<I> {
         self.plan.lock().unwrap().pop_front().unwrap_or(Fault::None)
     }
 
-    fn record(&self, e: LogEntry) {
+    fn record(&self, mut e: LogEntry) {
+        e.seq = LOG_SEQ.fetch_add(1, std::sync::atomic::Ordering::Relaxed);
         self.log.lock().unwrap().push(e);
     }
 }
@@ -264,7 +270,7 @@ where
                 .await
                 .map_err(|e| BulkMutationError::empty_with_error(StoreErr(e.to_string())))?;
         }
-        self.record(LogEntry { call: "remove_tombstones", keyspace: keyspace.into(), docs, written: written.len(), fault });
+        self.record(LogEntry { call: "remove_tombstones", keyspace: keyspace.into(), docs, written: written.len(), fault, seq: 0 });
         match fault {
             Fault::None => Ok(()),
             Fault::ParkAfter(_) => self.park().await,
@@ -279,7 +285,7 @@ where
         if write {
             self.inner.put(keyspace, document).await.map_err(|e| StoreErr(e.to_string()))?;
         }
-        self.record(LogEntry { call: "put", keyspace: keyspace.into(), docs, written: write as usize, fault });
+        self.record(LogEntry { call: "put", keyspace: keyspace.into(), docs, written: write as usize, fault, seq: 0 });
         match fault {
             Fault::None => Ok(()),
             Fault::ParkAfter(_) => self.park().await,
@@ -307,7 +313,7 @@ where
                 .map_err(|e| BulkMutationError::empty_with_error(StoreErr(e.to_string())))?;
         }
         let docs = if matches!(fault, Fault::FailOnly(_)) { written.iter().map(|i| docs[*i].clone()).collect() } else { docs };
-        self.record(LogEntry { call: "multi_put", keyspace: keyspace.into(), docs, written: written.len(), fault });
+        self.record(LogEntry { call: "multi_put", keyspace: keyspace.into(), docs, written: written.len(), fault, seq: 0 });
         match fault {
             Fault::None => Ok(()),
             Fault::ParkAfter(_) => self.park().await,
@@ -325,7 +331,7 @@ where
                 .await
                 .map_err(|e| StoreErr(e.to_string()))?;
         }
-        self.record(LogEntry { call: "mark_as_tombstone", keyspace: keyspace.into(), docs, written: write as usize, fault });
+        self.record(LogEntry { call: "mark_as_tombstone", keyspace: keyspace.into(), docs, written: write as usize, fault, seq: 0 });
         match fault {
             Fault::None => Ok(()),
             Fault::ParkAfter(_) => self.park().await,
@@ -350,7 +356,7 @@ where
                 .map_err(|e| BulkMutationError::empty_with_error(StoreErr(e.to_string())))?;
         }
         let docs = if matches!(fault, Fault::FailOnly(_)) { written.iter().map(|i| docs[*i].clone()).collect() } else { docs };
-        self.record(LogEntry { call: "mark_many_as_tombstone", keyspace: keyspace.into(), docs, written: written.len(), fault });
+        self.record(LogEntry { call: "mark_many_as_tombstone", keyspace: keyspace.into(), docs, written: written.len(), fault, seq: 0 });
         match fault {
             Fault::None => Ok(()),
             Fault::ParkAfter(_) => self.park().await,
